@@ -46,6 +46,27 @@ Proof.
 Qed.
 Print Assumptions C05_routing_is_a_function_of_the_state.
 
+(* from there to the ground truth: when the observer's view of a member peer's entries has converged
+   to that peer's own (which is what C04's convergence gives once gossip has quiesced), it forwards a
+   channel to the peer exactly when the peer has a live local subscriber for it; the peer's own
+   entries reflect its local subscriptions (OWN), an invariant of its own client operations *)
+Theorem C05_converged_routing_is_the_truth : forall b bp cnt,
+  INV b -> OWN bp -> bk_name bp <> bk_name b ->
+  member_get (bk_members b) (bk_name bp) = Some cnt ->
+  (forall k, k_peer k = bk_name bp -> status (bk_state b) k = status (bk_state bp) k) ->
+  forall s, In (s, bk_name bp) (bk_remote b) <-> exists conn, In (s, conn) (bk_local bp).
+Proof. exact converged_routing_is_the_truth. Qed.
+Print Assumptions C05_converged_routing_is_the_truth.
+
+Theorem C05_own_entries_reflect_local_subscriptions : forall b conn ssid t,
+  conn < kbase -> ssid < kbase -> (0 < t)%Z -> clock_ahead (bk_state b) t -> nonneg (bk_state b) -> OWN b ->
+  OWN (fst (local_sub b conn ssid t)) /\ OWN (fst (local_unsub b conn ssid t))
+  /\ (forall payload, bk_local (fst (swarm_merge b payload)) = bk_local b).
+Proof.
+  intros. split; [apply OWN_local_sub; assumption|]. split; [apply OWN_local_unsub; assumption|]. intros. apply swarm_merge_local.
+Qed.
+Print Assumptions C05_own_entries_reflect_local_subscriptions.
+
 (* transport: whatever is queued on a link before it sends, the payload sent carries all of it
    (C13_coalesce); a payload queued on an empty slot is sent as it is *)
 Theorem C05_transport_keeps_everything : forall pending data,
